@@ -38,6 +38,26 @@ from agilerl.typing import (
 )
 
 
+def is_evolvable_network(obj: Any) -> bool:
+    """Structural check for the ``EvolvableNetwork`` protocol. From Python 3.12 on, ``isinstance``
+    against a runtime-checkable protocol looks data members up with ``inspect.getattr_static``,
+    which does not see the ``encoder`` / ``head_net`` submodules ``torch.nn.Module`` keeps in
+    ``_modules``.
+
+    :param obj: Object to check
+    :type obj: Any
+    :return: True if the object provides the ``EvolvableNetwork`` interface
+    :rtype: bool
+    """
+    return isinstance(obj, EvolvableNetwork) or (
+        isinstance(obj, EvolvableModule)
+        and all(
+            hasattr(obj, attr)
+            for attr in ("encoder", "head_net", "forward_head", "extract_features")
+        )
+    )
+
+
 def share_encoder_parameters(
     policy: EvolvableNetwork, *others: EvolvableNetwork
 ) -> None:
@@ -48,9 +68,9 @@ def share_encoder_parameters(
     :param others: The other networks whose encoder parameters will be pinned to the policy.
     :type others: EvolvableNetwork
     """
-    assert isinstance(policy, EvolvableNetwork), "Policy must be an EvolvableNetwork"
+    assert is_evolvable_network(policy), "Policy must be an EvolvableNetwork"
     assert all(
-        isinstance(other, EvolvableNetwork) for other in others
+        is_evolvable_network(other) for other in others
     ), "All others must be EvolvableNetwork"
 
     # detaching encoder parameters from computation graph reduces
